@@ -299,3 +299,19 @@ PROPS['C18'] = dict(
          'v1, v2, v3 in one process and compared token by token; plus 10 (40 thorough) random radicands/rationals at depth 3000/1000 (30000/10000 thorough). Non-trivial: all; distinct = distinct inputs.',
     modelled='-', assumptions=[],
 )
+
+PROPS['C14'] = dict(
+    theorem='C14_args_untouched, C14_no_retention (Properties/C14.v)',
+    functional=True,
+    level_text='Theorems on a model with an explicit heap at the API boundary: library operations receive locations, read them during the call and keep values (the defensive copies of the '
+               'code); no library operation writes to the heap, and for every heap, every caller mutation (any location, any value) and every later sequence of reads and searches the '
+               'answers equal those of the history without the mutation. Tied to the code by mutation histories on all *big.Int / *big.Rat constructors of the three versions (arguments '
+               'overwritten in place right after construction, after 1 digit, between blocks; argument bit-identity after deep computation), pattern slices overwritten after creating '
+               'and between pulls of every search iterator, NewNumberForTesting slices, and builder reuse after Build; digits are judged by the extracted checker of C01/C02/C13.',
+    level_note='Partial: the heap is explicit only at the API boundary; that the arithmetic behind the copies touches private data only is by construction of the functional model, tied to the code '
+               'by these runs and by the race detector run of C05 for the package-level constants.',
+    rule='cases: 150 (2500 thorough) x 3 versions constructor cases over {SqrtBigInt, CubeRootBigInt, SqrtBigRat, CubeRootBigRat, NewNumberFromBigRat} with values above and below 1, '
+         'mutation moment in {immediately, after 1 digit, after 150 digits, never}, replacement values {0, 1, 7, big}; 150 pattern cases x entry points; 75 test-number slice cases; a '
+         'sample of C11 builder histories. Non-trivial: all.',
+    modelled='big.Int / big.Rat / slices as heap cells', assumptions=[],
+)
